@@ -1081,9 +1081,15 @@ class Interpreter(InterpreterBase, HoldableObject):
 
             subi.subproject_stack = self.subproject_stack + [(subp_name, for_machine)]
             current_active = self.active_projectname
-            with mlog.nested_warnings():
-                subi.run()
-                subi_warnings = mlog.get_warning_count()
+            try:
+                with mlog.nested_warnings():
+                    subi.run()
+                    subi_warnings = mlog.get_warning_count()
+            finally:
+                # Even if the subproject fails (and is disabled because it was
+                # not required) its build files were read: changing them must
+                # trigger a reconfiguration.
+                self.build_def_files.update(subi.get_build_def_files())
             mlog.log('Subproject', mlog.bold(subp_name), 'finished.')
 
         mlog.log()
